@@ -145,6 +145,13 @@ def hex_malformed_cases(rng, tier):
         for pfx in (b"T1", b"t1", b"T2", b"T0", b"1T", b"TT", b"11", b"\x00\x00", b"T\xff", b"\xd41", b" 1", b"T "):
             for mode in ("auto", "with", "empty"):
                 cases.append("parse %s %s %s" % (v, mode, hx(pfx + good[2:])))
+        # two adjacent damaged characters (aligned and unaligned pairs) at every position
+        for pos in range(ls - 1):
+            for a, b in ((0x40, 0x40), (0x7A, 0x7A), (0xFF, 0x80), (0x67, 0x47), (0x2F, 0x3A), (0x00, 0x00),
+                         (rng.choice(INTERESTING_BYTES), rng.choice(INTERESTING_BYTES))):
+                d = bytearray(good)
+                d[pos], d[pos + 1] = a, b
+                cases.append("parse %s %s %s" % (v, "auto" if pos % 2 else "with", hx(d)))
         # two damaged positions (error precedence)
         for _ in range(40 if tier == "quick" else 2000):
             d = bytearray(good)
@@ -163,6 +170,24 @@ def hex_malformed_cases(rng, tier):
     return cases
 
 
+def hex_pair_sweep_cases(rng, tier):
+    """Every one of the 65536 character pairs at a header pair position and at a body pair position
+    (complete for damage confined to one digit pair)."""
+    cases = []
+    vs = ["N"] if tier == "quick" else VNAMES
+    for v in vs:
+        good = bytearray(ref_format(v, plausible_bin(rng, v), True).encode())
+        ck = VARIANTS[v][0]
+        positions = [2, 2 + 2 * ck + 4] if tier == "quick" else [2, 2 + 2 * ck, 2 + 2 * ck + 2, 2 + 2 * ck + 4, VARIANTS[v][4] - 2]
+        for pos in positions:
+            for a in range(256):
+                for b in range(256):
+                    d = bytearray(good)
+                    d[pos], d[pos + 1] = a, b
+                    cases.append("parse %s auto %s" % (v, hx(d)))
+    return cases
+
+
 def hex_buffer_cases(rng, tier):
     cases = []
     for v in VNAMES:
@@ -177,3 +202,166 @@ def hex_buffer_cases(rng, tier):
             for L in range(0, size + 65):
                 cases.append("storebytes %s %s %s" % (v, hx(b), hx(rng.bytes(L))))
     return cases
+
+
+# ------------------------------------------------------------------------------------------
+# generator suites
+# ------------------------------------------------------------------------------------------
+
+THRESHOLD_LENGTHS = [0, 1, 2, 3, 4, 5, 6, 9, 10, 11, 17, 18, 19, 49, 50, 51, 64, 127, 128, 129, 255, 256, 257]
+
+
+def gen_data(rng, n, kind=None):
+    """n bytes of seeded data of a given texture."""
+    kind = kind if kind is not None else rng.below(8)
+    if kind == 0:
+        return rng.bytes(n)
+    if kind == 1:
+        return bytes([rng.below(256)] * n)
+    if kind == 2:
+        period = bytes(rng.bytes(1 + rng.below(7)))
+        return (period * (n // len(period) + 1))[:n]
+    if kind == 3:
+        alpha = rng.bytes(2 + rng.below(6))
+        return bytes(alpha[rng.below(len(alpha))] for _ in range(n))
+    if kind == 4:
+        words = [b"the ", b"quick ", b"brown ", b"fox ", b"jumps ", b"over ", b"lazy ", b"dog. ", b"Lorem ", b"ipsum "]
+        out = b""
+        while len(out) < n:
+            out += rng.choice(words)
+        return out[:n]
+    if kind == 5:
+        period = bytes(rng.bytes(16 + rng.below(48)))
+        return (period * (n // len(period) + 1))[:n]
+    if kind == 6:
+        return bytes((i * (1 + rng.below(3)) + rng.below(2)) & 0xFF for i in range(n))
+    return rng.bytes(n)
+
+
+def gen_hash_cases(rng, tier):
+    """hash V opts data: every variant x all 32 option settings on each datum."""
+    cases = []
+    lens = list(THRESHOLD_LENGTHS)
+    extra = 6 if tier == "quick" else 60
+    for _ in range(extra):
+        lens.append(rng.choice([60, 100, 200, 300, 500, 800, 1200, 2000]) + rng.below(50))
+    big = [5000] if tier == "quick" else [5000, 20000, 70000]
+    for v in VNAMES:
+        for n in lens + big:
+            for k in ([None] if tier == "quick" else [None, None]):
+                d = gen_data(rng, n, k)
+                opts = range(32) if (n <= 600 or tier != "quick") else [0, 2, 3, 30, 31]
+                for o in opts:
+                    cases.append("hash %s %d %s" % (v, o, hx(d)))
+        # texture sweep at a size that passes the length gate
+        for kind in range(7):
+            d = gen_data(rng, 150 + rng.below(300), kind)
+            for o in (0, 2, 1, 3, 8, 10, 16, 18, 31):
+                cases.append("hash %s %d %s" % (v, o, hx(d)))
+        cases.append("hashbuf %s %s" % (v, hx(gen_data(rng, 300, 4))))
+    return cases
+
+
+def split_pieces(rng, d):
+    """Split d into successive pieces, favouring empty and 1-5 byte pieces."""
+    out = []
+    i = 0
+    while i < len(d):
+        k = rng.below(10)
+        if k < 5:
+            n = rng.below(6)
+        elif k < 8:
+            n = rng.below(40)
+        else:
+            n = rng.below(max(1, len(d)))
+        out.append(d[i:i + n])
+        i += n
+    if rng.chance(1, 3):
+        out.append(b"")
+    return out
+
+
+def gen_hist_cases(rng, tier):
+    """Histories over update / finalize / processed_len / raw-state / clone / pop / swap."""
+    cases = []
+    n = 60 if tier == "quick" else 3000
+    for v in VNAMES:
+        for _ in range(n):
+            total = rng.choice(THRESHOLD_LENGTHS + [70, 150, 300, 600])
+            d = gen_data(rng, total)
+            ops = []
+            for piece in split_pieces(rng, d):
+                ops.append("u %s" % hx(piece))
+                r = rng.below(12)
+                if r == 0:
+                    ops.append("f %d" % rng.below(32))
+                elif r == 1:
+                    ops.append("l")
+                elif r == 2:
+                    ops.append("r")
+                elif r == 3:
+                    ops.append("c")
+                elif r == 4:
+                    ops.append("w")
+                elif r == 5:
+                    ops.append("p")
+                elif r == 6:
+                    ops.append("fd")
+            ops += ["l", "r", "f %d" % rng.below(32), "f 30", "w", "l", "f 30"]
+            cases.append("hist %s %s" % (v, " ".join(ops)))
+            # the same bytes in one update: must give the same observations
+            cases.append("hist %s u %s l r f 30 f 2 f 0" % (v, hx(d)))
+    return cases
+
+
+def le32s(vals):
+    out = bytearray()
+    for x in vals:
+        out += int(x).to_bytes(4, "little")
+    return bytes(out)
+
+
+def gen_inject_cases(rng, tier):
+    """Histories started from injected raw states (counters near 2^24, 2^31, 2^32; lengths near
+    MAX, 2^32-4, 2^32)."""
+    MAX = 4224281216
+    cases = []
+    n = 8 if tier == "quick" else 200
+    specials = [0, 1, 2, 3, 2 ** 24 - 1, 2 ** 24, 2 ** 24 + 1, 42949672, 42949673, 2 ** 31 - 1, 2 ** 31, 2 ** 31 + 1,
+                2 ** 32 - 2, 2 ** 32 - 1]
+    for v in VNAMES:
+        ck = VARIANTS[v][0]
+        nb = VARIANTS[v][1]
+        for _ in range(n):
+            kind = rng.below(4)
+            if kind == 0:
+                bk = [rng.choice(specials) for _ in range(256)]
+            elif kind == 1:
+                bk = [rng.below(2 ** 32) for _ in range(256)]
+            elif kind == 2:
+                nz = rng.choice([0, 1, nb // 4, nb // 4 + 1, nb // 2 - 1, nb // 2, nb // 2 + 1, 17, 18, 19, nb])
+                bk = [0] * 256
+                for i in rng_sample(rng, nb, min(nz, nb)):
+                    bk[i] = 1 + rng.below(5) if rng.chance(1, 2) else rng.choice(specials[1:])
+            else:
+                bk = [rng.below(1000) for _ in range(256)]
+            length = rng.choice([0, 10, 46, 124, 300, 5000, MAX - 10, MAX - 5, MAX - 4, MAX - 3, MAX, MAX + 1,
+                                 2 ** 32 - 10, 2 ** 32 - 6, 2 ** 32 - 5, 2 ** 32 - 4])
+            cks = rng.bytes(ck)
+            tail = rng.bytes(4)
+            ops = []
+            for _k in range(1 + rng.below(6)):
+                ops.append("u %s" % hx(rng.bytes(rng.choice([0, 1, 2, 3, 4, 5, 6, 7, 8, 9, 13]))))
+                ops.append(rng.choice(["l", "f %d" % rng.below(32), "r", "l"]))
+            ops += ["l", "r", "f 30", "f 2"]
+            cases.append("hist %s inject %s %d %s %s 4 %s" % (v, hx(le32s(bk)), length, hx(cks), hx(tail), " ".join(ops)))
+    return cases
+
+
+def rng_sample(rng, n, k):
+    idx = list(range(n))
+    out = []
+    for _ in range(k):
+        j = rng.below(len(idx))
+        out.append(idx.pop(j))
+    return out
